@@ -4,10 +4,12 @@ import Driver.Json
 import Driver.Txt
 import Driver.Accept
 import Driver.View
+import Driver.Avahi
 
 def main (args : List String) : IO UInt32 := do
   match args with
   | "reach" :: rest => Driver.reachMain rest
+  | ["avahi"] => Driver.Avahi.avahiMain
   | ["view"] => Driver.View.viewMain
   | ["accept"] => Driver.Accept.acceptMain
   | ["txtqr"] => Driver.Txt.txtMain
